@@ -699,6 +699,7 @@ fn observe(c: &Case) -> Value {
     }
     if r.unprintable {
         rec.insert("out".into(), json!(""));
+        rec.insert("unprintable".into(), json!(true));
         rec.insert("reparse".into(), json!({"t": "error", "msg": "the printer panicked on the transform's output"}));
         rec.insert("run2_same".into(), json!(true));
         rec.insert("out_hash".into(), json!("unprintable"));
